@@ -19,6 +19,10 @@ var (
 	// RandGrid is the set of answers rand.Float64 may give when exploration of the answer is on.
 	RandGrid = []float64{0.5, 0, 1 - 1.0/(1<<53), 0.25, 0.75}
 
+	// AutoTick makes every Now() advance the clock by 1ns (a write of the clock resource), so that
+	// successive readings are distinct as they are in real time (C08).
+	AutoTick bool
+
 	randFixed   = 0.5
 	randExplore bool
 	randCalls   int
@@ -34,6 +38,7 @@ func Res() unsafe.Pointer { return unsafe.Pointer(&clockRes) }
 //go:norace
 func Reset() {
 	offset = 0
+	AutoTick = false
 	randFixed = 0.5
 	randExplore = false
 	randCalls = 0
@@ -43,7 +48,15 @@ func Reset() {
 //
 //go:norace
 func Now() time.Time {
+	if AutoTick {
+		vsched.Point(vsched.KClockW, unsafe.Pointer(&clockRes))
+		offset++
+
+		return Epoch.Add(offset)
+	}
+
 	vsched.Point(vsched.KClockR, unsafe.Pointer(&clockRes))
+
 	return Epoch.Add(offset)
 }
 
